@@ -17,6 +17,26 @@
 (* c (the configuration record) comes from the harness together with the   *)
 (* DUT:  kind, dset, fl, pmax, ratio, reverse, w, vtc, cap, idw, odw, msb  *)
 (* (kind "shift" only: shift, with idw = data width)                       *)
+(*                                                                         *)
+(* Optional fields (a configuration without them keeps its meaning):       *)
+(*   junk = 1   : while the producer offers nothing (valid = 0) the data,  *)
+(*                first, last and param lines carry ANY value of the token *)
+(*                alphabet - they mean nothing without valid, and real     *)
+(*                producers drive them combinationally (a `last` computed  *)
+(*                from a counter, a payload that is a memory output ...)   *)
+(*   junk = 2   : the same on the data and param lines only, first and     *)
+(*                last stay 0 while idle (isolates finding                 *)
+(*                C03-pack-idle-first-last, stream.Pack)                   *)
+(*   fields     : <<w1, .., wn>>, kinds "up"/"down" (stream.StrideConverter*)
+(*                with n payload fields): the narrow token is Cat(f1..fn), *)
+(*                the wide word Cat(F1..Fn) with Fk = the ratio slices of  *)
+(*                field k; c.w = w1 + .. + wn                              *)
+(*   cast       : <<rf, wa, wb, rt, ta, tb>>, kind "id" (stream.Cast): the *)
+(*                payload Cat(a, b) is re-read as Cat(c, d) (tb = 0: one   *)
+(*                field), sink fields reversed if rf, source fields if rt  *)
+(*   wi         : witness index of the configuration (vacuity guard): TLC  *)
+(*                prints <<"WIT", wi, name>> the first time a stimulus /   *)
+(*                parameter class the configuration exists for is seen     *)
 (***************************************************************************)
 EXTENDS Integers, Sequences, FiniteSets, TLC
 
@@ -36,15 +56,30 @@ Min(a, b) == IF a < b THEN a ELSE b
 Or(a, b)  == IF a = 1 \/ b = 1 THEN 1 ELSE 0
 Drop(seq, n) == SubSeq(seq, n + 1, Len(seq))
 
+Flag(c, f) == f \in DOMAIN c /\ c[f] = 1
+(* witnesses against vacuity (TLC registers 10 + 8 * wi + k, k < 8), see harness/checks/streamfam.py *)
+ASSUME \A i \in 1..900 : TLCSet(i, 0)
+Wit(c, k, name) ==
+  IF "wi" \in DOMAIN c
+  THEN LET i == 10 + 8 * (c.wi % 100) + k IN
+       IF TLCGet(i) = 0 THEN TLCSet(i, 1) /\ PrintT(<<"WIT", c.wi, name>>) ELSE TRUE
+  ELSE TRUE
+WitIf(p, c, k, name) == IF p THEN Wit(c, k, name) ELSE TRUE
+
 ---------------------------------------------------------------------------
 (* Environment: what the producer/consumer may do in a cycle               *)
 FL(c) == IF c.fl = 1 THEN {0, 1} ELSE {0}
 Tokens(c) == { <<x, f, l, p>> : x \in {c.dset[i] : i \in 1..Len(c.dset)}, f \in FL(c), l \in FL(c), p \in 0..c.pmax }
 
+(* what the token lines carry while nothing is offered: 0 in the canonical environment, anything with c.junk *)
+IdleLines(c) == { <<0, 0, 0, 0>> } \cup (IF Flag(c, "junk") THEN Tokens(c)
+                                        ELSE IF "junk" \in DOMAIN c /\ c.junk = 2 THEN { <<t[1], 0, 0, t[4]>> : t \in Tokens(c) }
+                                        ELSE {})
+
 Inputs(c) ==
   IF hold # <<>>
   THEN { <<1, hold[1], hold[2], hold[3], hold[4], r>> : r \in {0, 1} }
-  ELSE { <<0, 0, 0, 0, 0, r>> : r \in {0, 1} } \cup
+  ELSE { <<0, t[1], t[2], t[3], t[4], r>> : t \in IdleLines(c), r \in {0, 1} } \cup
        { <<1, t[1], t[2], t[3], t[4], r>> : t \in Tokens(c), r \in {0, 1} }
 
 ---------------------------------------------------------------------------
@@ -62,6 +97,26 @@ Inputs(c) ==
 (*                      element is ready (= its pipeline advances): nx = that  *)
 (*                      token's data, -2 = the producer was idle then (the     *)
 (*                      upper `shift` bits are don't-care), -1 = not yet known *)
+(* position p (0-based) of a wide word x: the narrow token stored there.  With c.fields the wide word keeps the     *)
+(* slices of every field together ("field-wise stride mapping between raw converter bits and user layout")      *)
+RECURSIVE FOff(_, _)
+FOff(fw, k) == IF k = 1 THEN 0 ELSE FOff(fw, k - 1) + fw[k - 1]
+RECURSIVE FSum(_, _, _, _)
+FSum(c, x, p, k) ==
+  IF k > Len(c.fields) THEN 0
+  ELSE ((x \div Pow2(c.ratio * FOff(c.fields, k) + p * c.fields[k])) % Pow2(c.fields[k])) * Pow2(FOff(c.fields, k))
+       + FSum(c, x, p, k + 1)
+WChunk(c, x, p) == IF "fields" \in DOMAIN c THEN FSum(c, x, p, 1) ELSE Chunk(x, p, c.w)
+Pos(c, i) == IF c.reverse = 1 THEN c.ratio - i ELSE i - 1        \* position of the i-th token (1-based) of a group
+
+(* stream.Cast: Cat(lower field of width wlo, upper field of width whi) with the two fields exchanged *)
+Swap(x, wlo, whi) == (x % Pow2(wlo)) * Pow2(whi) + (x \div Pow2(wlo))
+CastMap(c, x) ==
+  IF "cast" \notin DOMAIN c THEN x
+  ELSE LET k == c.cast
+           y == IF k[1] = 1 THEN Swap(x, k[2], k[3]) ELSE x
+       IN IF k[4] = 1 THEN Swap(y, k[6], k[5]) ELSE y
+
 Closes(c, a, t) == Len(a) + 1 = c.ratio \/ t[3] = 1
 
 RECURSIVE OrField(_, _)
@@ -70,11 +125,11 @@ OrField(g, k) == IF g = <<>> THEN 0 ELSE Or(Head(g)[k], OrField(Tail(g), k))
 UpWord(c, g) == << [i \in 1..Len(g) |-> g[i][1]], OrField(g, 2), OrField(g, 3), g[Len(g)][4], Len(g) >>
 
 F(c, a, t) ==
-  CASE c.kind = "id"   -> << <<t[1], t[2], t[3], t[4], 0>> >>
+  CASE c.kind = "id"   -> << <<CastMap(c, t[1]), t[2], t[3], t[4], 0>> >>
     [] c.kind = "drop" -> << >>
     [] c.kind = "block" -> << >>
     [] c.kind = "down" -> [i \in 1..c.ratio |->
-                             << Chunk(t[1], IF c.reverse = 1 THEN c.ratio - i ELSE i - 1, c.w),
+                             << WChunk(c, t[1], Pos(c, i)),
                                 IF i = 1 THEN t[2] ELSE 0,
                                 IF i = c.ratio THEN t[3] ELSE 0,
                                 t[4],
@@ -98,7 +153,7 @@ MatchHead(c, vis, ot) ==
     [] c.kind = "up" ->
          LET e == Head(vis) IN
            /\ \A i \in 1..e[5] :
-                Chunk(ot[1], IF c.reverse = 1 THEN c.ratio - i ELSE i - 1, c.w) = e[1][i]
+                WChunk(c, ot[1], Pos(c, i)) = e[1][i]
            /\ e[2] = ot[2] /\ e[3] = ot[3] /\ e[4] = ot[4]
            /\ (c.vtc = 1 => e[5] = ot[5])
     [] c.kind = "gear" -> BitsVal(c, vis, 1) = ot[1]
@@ -145,6 +200,13 @@ CStep(c, iv, o) ==
               ELSE acc
   /\ hold'  = IF offered /\ ~sinkfire THEN tok ELSE <<>>
   /\ oprev' = IF o[2] = 1 /\ ~srcfire THEN ot ELSE <<>>
+  /\ WitIf(~offered /\ <<iv[2], iv[3], iv[4], iv[5]>> # <<0, 0, 0, 0>>, c, 1, "junk while idle")
+  /\ WitIf(~offered /\ (iv[3] = 1 \/ iv[4] = 1) /\ srcfire, c, 2, "junk first/last in the cycle of a source handshake")
+  /\ WitIf(srcfire /\ "cast" \in DOMAIN c /\ offered /\ CastMap(c, tok[1]) # tok[1], c, 3, "regrouped token delivered")
+  /\ WitIf(sinkfire /\ "fields" \in DOMAIN c /\ c.kind = "down"
+             /\ \E p \in 0..(c.ratio - 1) : WChunk(c, tok[1], p) # Chunk(tok[1], p, c.w), c, 4, "field-wise word")
+  /\ WitIf(srcfire /\ "fields" \in DOMAIN c /\ c.kind = "up"
+             /\ \E p \in 0..(c.ratio - 1) : WChunk(c, ot[1], p) # Chunk(ot[1], p, c.w), c, 4, "field-wise word")
   /\ obs'   = [okorder  |-> okvis /\ okdup /\ okblock,
                okhold   |-> (oprev # <<>> => (o[2] = 1 /\ ot = oprev)),
                okbound  |-> Len(q2) <= c.cap,
